@@ -11,7 +11,7 @@
 (* usize values that do not fit TLC's integers are encoded as negative     *)
 (* numbers: -(usize::MAX - v) - 1, so -1 = MAX, -2 = MAX - 1, ...          *)
 (***************************************************************************)
-EXTENDS Envelope, Integers, Sequences, FiniteSets
+EXTENDS Envelope, Integers, Sequences, FiniteSets, TLC
 
 Huge(v) == v < 0
 Ge(a, b) == Huge(a) \/ (~Huge(b) /\ a >= b)        \* a >= b on encoded values (b never huge here)
@@ -50,4 +50,34 @@ DecAddViolations(which, cnt, sb, got, i, len) ==
 DecodeViolations(k, nO, nR) ==
   IF nO + nR >= k THEN {}
   ELSE {[err |-> "NotEnoughShards", original_count |-> k, original_received_count |-> nO, recovery_received_count |-> nR]}
+
+(***************************************************************************)
+(* The documented text of every error (impl Display for Error), from the   *)
+(* error's own fields.  Only evaluated when no field is an encoded huge    *)
+(* value.                                                                  *)
+(***************************************************************************)
+NumStr(n) == ToString(n)
+ErrorText(e) ==
+  CASE e.err = "DifferentShardSize" ->
+         "different shard size: expected " \o NumStr(e.shard_bytes) \o " bytes, got " \o NumStr(e.got) \o " bytes"
+    [] e.err = "DuplicateOriginalShardIndex" -> "duplicate original shard index: " \o NumStr(e.index)
+    [] e.err = "DuplicateRecoveryShardIndex" -> "duplicate recovery shard index: " \o NumStr(e.index)
+    [] e.err = "InvalidOriginalShardIndex" ->
+         "invalid original shard index: " \o NumStr(e.index) \o " >= original_count " \o NumStr(e.original_count)
+    [] e.err = "InvalidRecoveryShardIndex" ->
+         "invalid recovery shard index: " \o NumStr(e.index) \o " >= recovery_count " \o NumStr(e.recovery_count)
+    [] e.err = "InvalidShardSize" ->
+         "invalid shard size: " \o NumStr(e.shard_bytes) \o " bytes (must non-zero and multiple of 2)"
+    [] e.err = "NotEnoughShards" ->
+         "not enough shards: " \o NumStr(e.original_received_count) \o " original + " \o NumStr(e.recovery_received_count)
+           \o " recovery < " \o NumStr(e.original_count) \o " original_count"
+    [] e.err = "TooFewOriginalShards" ->
+         "too few original shards: got " \o NumStr(e.original_received_count) \o " shards while original_count is "
+           \o NumStr(e.original_count)
+    [] e.err = "TooManyOriginalShards" ->
+         "too many original shards: got more than original_count (" \o NumStr(e.original_count) \o ") shards"
+    [] e.err = "UnsupportedShardCount" ->
+         "unsupported shard count: " \o NumStr(e.original_count) \o " original shards with " \o NumStr(e.recovery_count)
+           \o " recovery shards"
+NoHugeField(e) == \A f \in DOMAIN e : f = "err" \/ ~Huge(e[f])
 =============================================================================
